@@ -12,6 +12,8 @@ KNOWN_TEXT = {
     "union_bitfield_unit_short": "the bit-field allocation unit of a union covers only its last bit-field (every bit-field of a union starts at 0): storage shorter than a wider earlier bit-field, union too small when packed",
     "explicit_padding_double_tail": "--explicit-padding: add_tail_padding does not advance latest_offset, pad_struct pads the tail a second time after a bit-field unit: struct too big",
     "explicit_padding_union_wrapper": "--explicit-padding on a union emitted in __BindgenUnionField form: tail padding in front of the full-size bindgen_union_field blob: struct too big",
+    "bitfield_unit_misplaced": "a bit-field allocation unit is emitted with alignment 1 right after the previous field, although libclang's bit offsets put its first bit-field further on (e.g. struct { char a; int b : 30; }: b at bit 32, unit at byte 1): accessors read/write the wrong bytes",
+    "packed_member_gap": "a packed record never gets padding fields: a gap the C compiler leaves in front of a member (member-level aligned(N) inside #pragma pack / packed) is lost, later members and the size are too small",
     "tail_padding_underflow": "--explicit-padding: comp_layout.size - latest_offset underflows in add_tail_padding (union in wrapper form with a bit-field unit): panic with overflow checks",
 }
 
@@ -87,9 +89,14 @@ def _run(res, work):
     res.coverage.update({
         "obligations": lean["obligations"], "discharged": lean["discharged"], "theorems": lean["theorems"],
         "checker_cmd": "translator (LayoutConsts) && lake build BindgenModel.Props.C02 bgmodel && lake env lean <#print axioms audit>" + (" && lake env leanchecker BindgenModel.Props.C02" if res.tier == "thorough" else ""),
-        "layers": {"1 alignTo/blob_exact/forSize": "proved", "2 plain_struct + explicit_padding_irrelevant": "proved (region pad_blob_inexact excluded, witnessed)",
-                   "3 packed1/packedN": "model + correspondence only", "4 explicit_align (members aligned > 8)": "model + correspondence only",
-                   "5 with_units": "model + correspondence only", "6 unions": "model + correspondence only", "7 opaque": "blob_exact proved; struct level by correspondence only"},
+        "layers": {"1 alignTo/blob_exact/forSize": "proved",
+                   "2 plain_struct + explicit_padding_irrelevant": "proved (region pad_blob_inexact excluded, witnessed)",
+                   "3 packed1/packedN (C02_packed_struct)": "proved",
+                   "4 explicit_align / members of any alignment (C02_plain_struct_any_align)": "proved (region pad_blob_inexact excluded)",
+                   "5 with_units (C02_with_units)": "proved without --explicit-padding (regions bitfield_unit_misplaced, explicit_padding_double_tail, pad_blob_inexact excluded, witnessed)",
+                   "6 unions (C02_unions)": "proved (region explicit_padding_union_wrapper excluded, witnessed)",
+                   "7 opaque (C02_opaque)": "proved",
+                   "not under an unbounded theorem": "arrays of over-aligned elements (saw_field hack), C++ bases/vtables, records in the packed/aligned defect regions: executable model + correspondence only"},
         "evaluations": rep.get("comps_checked", 0) + rep.get("fn_level_calls", 0),
         "distinct_nontrivial": rep.get("distinct_nontrivial", 0),
         "rule": "evaluations = records compared (model emit vs real aggregate, reprC vs libclang) under all option variants + function-level align_to/for_size calls; distinct_nontrivial = distinct model requests (record shape: kind, layout, attribute facts, per-field layout/offset/array facts, options) with at least two fields",
